@@ -65,6 +65,11 @@ Parseval == done => MapThenSumSet(LAMBDA p : Spec2[p], Cells) = 2 * R * C * MapT
 \* the zero-frequency sample is the squared total, and sits at the origin index of both axes
 DcAtOrigin == done => Spec2[<<Origin(R) + 1, Origin(C) + 1>>] = 2 * MapThenSumSet(LAMBDA p : HW[p], Cells) * MapThenSumSet(LAMBDA p : HW[p], Cells)
 Hermitian == done => \A p \in Cells : Spec2[p] = TwoFsq(<<0 - Co(p)[1], 0 - Co(p)[2]>>) /\ Spec2[p] >= 0
+\* the PSD is a function of the CURRENT heights and quadratic in them: doubling the map quadruples every sample (what a result
+\* remembered from before an in-place change of the data would get wrong)
+TwoFsqOf(hw2, k) == MapThenSumSet(LAMBDA pq : hw2[pq[1]] * hw2[pq[2]] *
+                 TC(k[1] * (Co(pq[1])[1] - Co(pq[2])[1]) * (Lcm \div R) + k[2] * (Co(pq[1])[2] - Co(pq[2])[2]) * (Lcm \div C), Lcm), Cells \X Cells)
+Homogeneous == done => \A p \in Cells : TwoFsqOf([q \in Cells |-> 2 * HW[q]], Co(p)) = 4 * Spec2[p]
 \* adjacent bands partition, so band power adds; widening a band never removes a cell
 Additive == done => \A a \in Edges, b \in Edges, c \in Edges \cup {Top} : (Less(a, b) /\ Less(b, c)) =>
                /\ BandCells(a, b) \cap BandCells(b, c) = {}
